@@ -215,26 +215,8 @@ func ruleLatencyReport(r *Run) {
 			// ping ids listed = keys of PingRequests
 			listed := false
 			if ld != nil {
-				if id, ok := ast.Unparen(litField(ld, "PingRequestIds")).(*ast.Ident); ok {
-					obj := ldFn.Info().Uses[id]
-					sites := ldFn.Defs().sites[obj]
-					nApp := 0
-					okAll := true
-					for _, s := range sites {
-						c := ""
-						if s.rhs != nil {
-							c = r.P.canon(ldFn, s.rhs, 0)
-						}
-						switch {
-						case s.kind == "zero":
-						case s.kind == "assign" && strings.HasPrefix(c, "append(local:") && strings.HasSuffix(c, ",rangekey(recv.PingRequests))"):
-							nApp++
-						default:
-							okAll = false
-						}
-					}
-					listed = okAll && nApp == 1
-				}
+				m, ok := r.keyListOf(ldFn, litField(ld, "PingRequestIds"), 0)
+				listed = ok && m == "recv.PingRequests"
 			}
 			r.CheckT("I2", on.Name+":lists-issued-ids", listed, on.Body.Pos(), path, "the report lists exactly the ids of the recorded rounds")
 		}
@@ -371,4 +353,81 @@ func ruleMapOrderFree(r *Run) {
 		}
 	}
 	r.Check("I3", "candidates", n >= 1, 0, "slices filled from map iteration were found and examined (%d)", n)
+}
+
+// keyListOf: x denotes a slice that holds exactly the keys of one map: a local whose only definitions
+// are its zero value and `l = append(l, k)` inside `for k := range m`, or the result of a helper of
+// the same receiver that returns such a local. Returns the canonical map (in fn's terms).
+func (r *Run) keyListOf(fn *Func, x ast.Expr, depth int) (string, bool) {
+	if x == nil || depth > 2 {
+		return "", false
+	}
+	switch v := ast.Unparen(x).(type) {
+	case *ast.Ident:
+		obj := fn.Info().Uses[v]
+		if obj == nil {
+			return "", false
+		}
+		sites := fn.Defs().sites[obj]
+		m, nApp := "", 0
+		for _, s := range sites {
+			c := ""
+			if s.rhs != nil {
+				c = r.P.canon(fn, s.rhs, 0)
+			}
+			switch {
+			case s.kind == "zero":
+			case s.kind == "assign" && strings.HasPrefix(c, "append(local:") && strings.Contains(c, ",rangekey(") && strings.HasSuffix(c, "))"):
+				nApp++
+				m = c[strings.Index(c, ",rangekey(")+len(",rangekey(") : len(c)-2]
+			case s.kind == "assign" && len(sites) == 1:
+				// single definition: an alias of / a call producing the list
+				return r.keyListOf(fn, s.rhs, depth+1)
+			default:
+				return "", false
+			}
+		}
+		return m, nApp == 1
+	case *ast.CallExpr:
+		f, _ := calleeObj(fn.Info(), v).(*types.Func)
+		def := r.P.Funcs[f]
+		if f == nil || def == nil || !r.P.isGlue(f) {
+			return "", false
+		}
+		// same receiver: the helper's "recv" is the caller's receiver expression
+		rc := ""
+		if re := recvExpr(v); re != nil {
+			rc = r.P.canon(fn, re, 0)
+		}
+		var m string
+		okAll, n := true, 0
+		ast.Inspect(def.Body, func(nd ast.Node) bool {
+			if _, isLit := nd.(*ast.FuncLit); isLit {
+				return false
+			}
+			rs, isRet := nd.(*ast.ReturnStmt)
+			if !isRet {
+				return true
+			}
+			n++
+			if len(rs.Results) != 1 {
+				okAll = false
+				return true
+			}
+			mm, ok := r.keyListOf(def, rs.Results[0], depth+1)
+			if !ok || (m != "" && m != mm) {
+				okAll = false
+			}
+			m = mm
+			return true
+		})
+		if !okAll || n == 0 {
+			return "", false
+		}
+		if rc != "" && (m == "recv" || strings.HasPrefix(m, "recv.")) {
+			m = rc + m[len("recv"):]
+		}
+		return m, true
+	}
+	return "", false
 }
